@@ -116,3 +116,6 @@ func VerifItemsCount(m *Nitro) int64 { return atomic.LoadInt64(&m.itemsCount) }
 func VerifIterState(it *Iterator) (count, refreshRate int, node *skiplist.Node) {
 	return it.count, it.refreshRate, it.iter.GetNode()
 }
+
+// VerifAggrStats returns the aggregated statistics report DumpStats prints.
+func VerifAggrStats(m *Nitro) skiplist.StatsReport { return m.aggrStoreStats() }
